@@ -229,6 +229,99 @@ fn gen_maint(rng: &mut Rng, profile: &str) -> Op {
     }
 }
 
+/// C12: one or two tables built from an adversarial multi-version item stream under random
+/// writer settings, then (after a reopen, so that every read goes through the table files)
+/// exhaustive point reads at every (key, seqno +- 1) incl. absent neighbour keys, and scans
+/// with generated bounds and pull patterns at several snapshots.
+pub fn generate_table(seed: u64, blob: bool) -> History {
+    let mut rng = Rng::new(seed ^ 0x7AB1_E000);
+    let mut cfg = rand_cfg(&mut rng, blob);
+    cfg.block_size = *rng.pick(&[64u32, 64, 128, 256, 1024]);
+    let prefix_len = *rng.pick(&[0usize, 1, 3, 40, 300]);
+    let prefix: Vec<u8> = (0..prefix_len).map(|i| b'p' + (i % 5) as u8).collect();
+    let nkeys = rng.range(2, 14) as usize;
+    let mut keys: Vec<Vec<u8>> = Vec::new();
+    while keys.len() < nkeys {
+        let mut k = prefix.clone();
+        for _ in 0..rng.range(0, 3) {
+            k.push(*rng.pick(&[0u8, 1, b'a', b'b', b'z', 0xfe, 0xff]));
+        }
+        if k.is_empty() {
+            k.push(b'a');
+        }
+        if !keys.contains(&k) {
+            keys.push(k);
+        }
+    }
+    keys.sort();
+    let mut ops = Vec::new();
+    let mut vn = 0u64;
+    let mut nwrites = 0u64;
+    let rounds = rng.range(1, 3);
+    for round in 0..rounds {
+        let writes = rng.range(4, 40);
+        for _ in 0..writes {
+            let k = rng.pick(&keys).clone();
+            nwrites += 1;
+            match rng.below(10) {
+                0 | 1 => ops.push(Op::Del(k)),
+                2 => ops.push(Op::WDel(k)),
+                _ => {
+                    vn += 1;
+                    let mut v = format!("v{vn}").into_bytes();
+                    match rng.below(8) {
+                        0 => v.extend(std::iter::repeat(b'#').take(rng.range(60, 700) as usize)),
+                        1 => v.clear(),
+                        _ => {}
+                    }
+                    ops.push(Op::Put(k, v));
+                }
+            }
+        }
+        ops.push(Op::FlushActive(Wm::Zero));
+        if round > 0 && rng.chance(1, 2) {
+            ops.push(Op::Major { target: *rng.pick(&[1u64, 200, 1 << 20]), w: Wm::Zero });
+        }
+    }
+    if rng.chance(1, 3) {
+        ops.push(Op::Major { target: *rng.pick(&[1u64, 150, 1 << 20]), w: Wm::Zero });
+    }
+    ops.push(Op::Reopen);
+    // upper bound on seqnos handed out (writes + version upgrades)
+    let smax = nwrites + 16;
+    let mut probes: Vec<Vec<u8>> = keys.clone();
+    for k in &keys {
+        let mut a = k.clone();
+        a.push(0);
+        probes.push(a);
+        let mut b = k.clone();
+        if let Some(l) = b.last_mut() {
+            *l = l.wrapping_sub(1);
+        }
+        probes.push(b);
+        let mut c = k.clone();
+        c.pop();
+        if !c.is_empty() {
+            probes.push(c);
+        }
+    }
+    probes.sort();
+    probes.dedup();
+    for k in &probes {
+        for s in 0..=smax {
+            ops.push(Op::GetAt(k.clone(), s));
+        }
+        ops.push(Op::GetMax(k.clone()));
+    }
+    for _ in 0..rng.range(10, 30) {
+        let lo = rand_bound(&mut rng, &probes);
+        let hi = rand_bound(&mut rng, &probes);
+        let s = rng.range(0, smax + 1);
+        ops.push(Op::RangeAt(lo, hi, rand_pulls(&mut rng, keys.len() as u64 + 3), s));
+    }
+    History { cfg, ops }
+}
+
 /// Profiles:
 ///  tree    inserts/deletes + rotate/flush/leveled/major + snapshots + reads + reopen
 ///  moves   tree + movedown/pulldown (executed by the driver only in safe positions)
@@ -238,6 +331,9 @@ fn gen_maint(rng: &mut Rng, profile: &str) -> Op {
 ///  filter  tree + compaction filter verdicts (C17)
 ///  fifo    monotone appends + FIFO compaction (C19)
 pub fn generate(profile: &str, seed: u64, n_ops: usize, blob: bool) -> History {
+    if profile == "table" {
+        return generate_table(seed, blob);
+    }
     let mut rng = Rng::new(seed ^ (profile.len() as u64) << 48 ^ u64::from(profile.as_bytes()[0]) << 40);
     let mut cfg = rand_cfg(&mut rng, blob);
     if profile == "filter" {
